@@ -21,7 +21,7 @@ var htmlQuick = []Mix{
 	{Gen: "mut", Dict: "htmlfull", N: 250000},
 	{Gen: "novel", Dict: "htmlfull", N: 150000},
 	{Gen: "g04", N: 150000},
-	{Gen: "scale", N: 70000}, {Gen: "seam"}, {Gen: "nulpad"}, {Gen: "wrapcount"}, {Gen: "foldalias"}, {Gen: "attrvals"}, {Gen: "nsattrs"},
+	{Gen: "scale", N: 70000}, {Gen: "seam"}, {Gen: "nulpad"}, {Gen: "wrapcount"}, {Gen: "foldalias"}, {Gen: "attrvals"}, {Gen: "nsattrs"}, {Gen: "elements"},
 }
 
 var htmlThorough = []Mix{
@@ -32,7 +32,7 @@ var htmlThorough = []Mix{
 	{Gen: "mut", Dict: "htmlfull", N: 4000000},
 	{Gen: "novel", Dict: "htmlfull", N: 2000000},
 	{Gen: "g04", N: 2000000},
-	{Gen: "scale", N: 70000}, {Gen: "scale", N: 100000}, {Gen: "seam", N: 1}, {Gen: "nulpad"}, {Gen: "wrapcount"}, {Gen: "foldalias"}, {Gen: "attrvals"}, {Gen: "nsattrs"},
+	{Gen: "scale", N: 70000}, {Gen: "scale", N: 100000}, {Gen: "seam", N: 1}, {Gen: "nulpad"}, {Gen: "wrapcount"}, {Gen: "foldalias"}, {Gen: "attrvals"}, {Gen: "nsattrs"}, {Gen: "elements"},
 }
 
 func htmlPlan(quick, thorough []Mix) func(string, uint64) []core.Unit {
@@ -97,12 +97,12 @@ func c15() *core.Check {
 	quick := []Mix{
 		{Gen: "atoms", Dict: "htmlbytes0", K: 5},
 		{Gen: "atoms", Dict: "htmlfull0", K: 3},
-		{Gen: "f-corpus"}, {Gen: "f-seq", N: 300000}, {Gen: "f-mut", N: 300000}, {Gen: "f-g04", N: 300000}, {Gen: "f-bytetpl"}, {Gen: "f-utf8tpl"}, {Gen: "f-scale", N: 128 << 10}, {Gen: "f-padded"}, {Gen: "nulpad"}, {Gen: "wrapcount"}, {Gen: "foldalias"}, {Gen: "attrvals"}, {Gen: "nsattrs"}, {Gen: "huge", Dict: "quick"}, {Gen: "encvec"}, {Gen: "giantx"},
+		{Gen: "f-corpus"}, {Gen: "f-seq", N: 300000}, {Gen: "f-mut", N: 300000}, {Gen: "f-g04", N: 300000}, {Gen: "f-bytetpl"}, {Gen: "f-utf8tpl"}, {Gen: "f-scale", N: 128 << 10}, {Gen: "f-padded"}, {Gen: "nulpad"}, {Gen: "wrapcount"}, {Gen: "foldalias"}, {Gen: "attrvals"}, {Gen: "nsattrs"}, {Gen: "elements"}, {Gen: "huge", Dict: "quick"}, {Gen: "encvec"}, {Gen: "giantx"},
 	}
 	thorough := []Mix{
 		{Gen: "atoms", Dict: "htmlbytes0", K: 6},
 		{Gen: "atoms", Dict: "htmlfull0", K: 4},
-		{Gen: "f-corpus"}, {Gen: "f-seq", N: 5000000}, {Gen: "f-mut", N: 5000000}, {Gen: "f-g04", N: 5000000}, {Gen: "f-bytetpl"}, {Gen: "f-utf8tpl"}, {Gen: "f-scale", N: 1 << 20}, {Gen: "f-scale", N: 100000}, {Gen: "f-padded", N: 1}, {Gen: "nulpad"}, {Gen: "wrapcount"}, {Gen: "foldalias"}, {Gen: "attrvals"}, {Gen: "nsattrs"}, {Gen: "huge", Dict: "thorough"}, {Gen: "encvec"}, {Gen: "giantx", N: 1},
+		{Gen: "f-corpus"}, {Gen: "f-seq", N: 5000000}, {Gen: "f-mut", N: 5000000}, {Gen: "f-g04", N: 5000000}, {Gen: "f-bytetpl"}, {Gen: "f-utf8tpl"}, {Gen: "f-scale", N: 1 << 20}, {Gen: "f-scale", N: 100000}, {Gen: "f-padded", N: 1}, {Gen: "nulpad"}, {Gen: "wrapcount"}, {Gen: "foldalias"}, {Gen: "attrvals"}, {Gen: "nsattrs"}, {Gen: "elements"}, {Gen: "huge", Dict: "thorough"}, {Gen: "encvec"}, {Gen: "giantx", N: 1},
 	}
 	plan := func(tier string, seed uint64) []core.Unit {
 		mixes := quick
@@ -191,7 +191,9 @@ func c15() *core.Check {
 						strings.NewReplacer("<", "&lt;", ">", "&gt;", "=", "&#61;", "\"", "&quot;").Replace(v), strings.NewReplacer("<", "\\u003c", ">", "\\u003e", "=", "\\u003d").Replace(v),
 						strings.NewReplacer("<", "\\x3c", ">", "\\x3e", "=", "\\x3d").Replace(v), strings.NewReplacer("<", "\xbc", ">", "\xbe", "=", "\xbd").Replace(v),
 						strings.NewReplacer("<", "+ADw-", ">", "+AD4-", "=", "+AD0-").Replace(v), strings.NewReplacer("<", "\uff1c", ">", "\uff1e", "=", "\uff1d").Replace(v),
-						strings.NewReplacer("<", "\\74", ">", "\\76", "=", "\\75").Replace(v), strings.NewReplacer("<", "%u003c", ">", "%u003e", "=", "%u003d").Replace(v)} {
+						strings.NewReplacer("<", "\\74", ">", "\\76", "=", "\\75").Replace(v),
+						// charset switching sequences around the text (ISO-2022-JP/KR, HZ, SO/SI, BOMs)
+						"Hello \x1b$B" + stripLtEq(v, r) + "\x1b(B world", "\x1b$@" + stripLtEq(v, r) + "\x1b(J", "\x1b$)C\x0e" + stripLtEq(v, r) + "\x0f", "~{" + stripLtEq(v, r) + "~}", "\xff\xfe" + stripLtEq(v, r), "+/v8-" + stripLtEq(v, r), "\x1b(B" + stripLtEq(v, r) + "\x1b$B", strings.NewReplacer("<", "%u003c", ">", "%u003e", "=", "%u003d").Replace(v)} {
 						emit(core.Case{In: e})
 					}
 				}
